@@ -327,3 +327,11 @@ def every_revision_walked(ctx):
     yield every secret of every chain even when chains have different lengths (C04.iter)."""
     from . import c04
     c04.iter_rule(ctx)
+
+
+@rule('C12', 'instance-is-stateless')
+def instance_is_stateless(ctx):
+    """'an authorized key ... decrypts': every encryption encapsulates for the public key and policy it is given, never re-using what an earlier call produced for another key. Structurally: the scheme instance holds its random generator and nothing else — no cache, no memo, no static, no
+    thread-local (C19.state-audit)."""
+    from . import c19
+    c19.state_audit(ctx)
